@@ -29,7 +29,11 @@ def if_then_else(cond, truev, falsev):
     
     if isinstance(truev, LinCombFxp):
         falsev = LinCombFxp._ensurefxp(falsev)
-    return falsev + cond * (truev - falsev)
+    ret = falsev + cond * (truev - falsev)
+    if isinstance(truev, LinCombBool) and isinstance(falsev, LinCombBool):
+        # a selection between two booleans is a boolean (already constrained: no new constraint)
+        ret = LinCombBool(ret, False)
+    return ret
 
 def _not(cond):
     # logical negation of a branch condition (LinCombBool: ~cond; 0/1-valued LinComb or int: 1-cond)
